@@ -5,6 +5,8 @@ package c12
 import (
 	"bytes"
 	"fmt"
+	"os"
+	"path/filepath"
 	"sort"
 	"sync"
 	"testing"
@@ -36,6 +38,8 @@ type Case struct {
 	UsePlay bool        // use Play(out) (single default port) instead of MultiPlay
 	// Twice: the same TracksReader is played a second time; both runs are checked
 	Twice bool `json:",omitempty"`
+	// FromFile: the file is read with smf.ReadTracks(path, ...) instead of ReadTracksFrom(reader, ...)
+	FromFile bool `json:",omitempty"`
 }
 
 type sent struct {
@@ -221,7 +225,20 @@ func run(c Case) (res ev.Result) {
 func playOnce(c Case, run int, trd **smf.TracksReader, rec *recorder, outs []*fakeOut, file []byte, perr *error) string {
 	failed := ev.TryTimeout(ev.Watchdog, func() {
 		if *trd == nil {
-			*trd = smf.ReadTracksFrom(bytes.NewReader(file), c.Select...)
+			if c.FromFile {
+				dir, err := os.MkdirTemp("", "verif-c12-")
+				if err != nil {
+					panic(err)
+				}
+				defer os.RemoveAll(dir)
+				path := filepath.Join(dir, "play.mid")
+				if err := os.WriteFile(path, file, 0o644); err != nil {
+					panic(err)
+				}
+				*trd = smf.ReadTracks(path, c.Select...)
+			} else {
+				*trd = smf.ReadTracksFrom(bytes.NewReader(file), c.Select...)
+			}
 		}
 		rec.start = time.Now()
 		if c.UsePlay {
@@ -365,6 +382,7 @@ func genCase(t *rapid.T) Case {
 	}
 	c.UsePlay = rapid.IntRange(0, 3).Draw(t, "usePlay?") == 0
 	c.Twice = rapid.IntRange(0, 4).Draw(t, "playTwice?") == 0
+	c.FromFile = rapid.IntRange(0, 3).Draw(t, "fromFile?") == 0
 	if !c.UsePlay {
 		c.Ports = map[int]int{}
 		if rapid.IntRange(0, 3).Draw(t, "default?") > 0 {
@@ -383,7 +401,7 @@ func genCase(t *rapid.T) Case {
 }
 
 var play = ev.NewCheck("C12", "playback",
-	"rapid: format-1 files with 1..5 tracks; 1..6 grid ticks recur in every track with 0..14 events each (so ticks are shared within and across tracks and the concatenation of the tracks is not ordered by time), off-grid notes, metas, sysex and tempo changes sprinkled in; resolution 960 with tempi making one tick 1..50 us, whole file <= ~25 ms; channel messages unique (id in channel/key/velocity); Play(out) or MultiPlay with explicit, default (-1) and missing port mappings; optional track selection; in one case of five the same TracksReader is played a second time and both runs are checked; oracle on recording fake out ports (instant = time.Since(start) inside Send): every channel message of a selected, mapped track exactly once on its port, no meta event ever, per-track send order == file order, global order non-decreasing in scheduled time (exact tempo-map integral), no send before its scheduled time; sysex filtered from the comparison; non-trivial = >= 2 selected tracks, > 12 messages and a tick shared by >= 2 events of one track and by another track; distinct by case hash",
+	"rapid: format-1 files with 1..5 tracks; 1..6 grid ticks recur in every track with 0..14 events each (so ticks are shared within and across tracks and the concatenation of the tracks is not ordered by time), off-grid notes, metas, sysex and tempo changes sprinkled in; resolution 960 with tempi making one tick 1..50 us, whole file <= ~25 ms; channel messages unique (id in channel/key/velocity); Play(out) or MultiPlay with explicit, default (-1) and missing port mappings; optional track selection; read with ReadTracksFrom or (one case of four) from a temporary file with ReadTracks; in one case of five the same TracksReader is played a second time and both runs are checked; oracle on recording fake out ports (instant = time.Since(start) inside Send): every channel message of a selected, mapped track exactly once on its port, no meta event ever, per-track send order == file order, global order non-decreasing in scheduled time (exact tempo-map integral), no send before its scheduled time; sysex filtered from the comparison; non-trivial = >= 2 selected tracks, > 12 messages and a tick shared by >= 2 events of one track and by another track; distinct by case hash",
 	genCase, run)
 
 func TestPropPlayback(t *testing.T) { play.Rapid(t, 150, 2000) }
